@@ -320,6 +320,12 @@ def check(ctx):
     c01.rule_orthogonal_indexer(ctx, rid='R7')
     from . import c09
     c09.rule_values_setter(ctx, rid='R8')
+    # the index handed to _setitem is resolved by _get_indices: its per-dimension bookkeeping (shared with C01) - a write through a mis-resolved
+    # index changes other cells than the ones the same index reads
+    from . import c01 as _c01b
+    from ..report import Renamed as _RenB
+    ctx.rule('R9', '_get_indices per-dimension bookkeeping (shared with C01)', 4)
+    _c01b.rule_bookkeeping(_RenB(ctx, {'*': 'R9'}))
     ctx.not_decided += ['which cells NumPy writes for a given fancy index', 'broadcasting of the right-hand side',
                         'read-back equality (value level)']
     ctx.trusted += ['numpy.asarray(x, dtype=) converts without changing shape', 'CPython ast module']
